@@ -227,3 +227,29 @@ def pmap(pool, fn, tasks, chunksize=1, stall_s=2400):
             raise MachineryError(f'no result from the worker pool for {stall_s} s: a worker process was probably killed (out of memory?)')
         out[i] = r
     return out
+
+
+class LimitExceeded(Exception):
+    pass
+
+
+_LIMIT_HITS = [0]
+
+
+def _limit_alarm(signum, frame):
+    _LIMIT_HITS[0] += 1
+    raise LimitExceeded('no result within the time limit (120 s; 5 s after three time-outs in the same worker process)')
+
+
+def limited(a):
+    """(fn, x) -> fn(x) under a time limit: a call into the implementation that does not come back is an outcome of that call (the drivers
+    record exceptions as outcomes), not a check that never ends"""
+    import signal
+    fn, x = a
+    old = signal.signal(signal.SIGALRM, _limit_alarm)
+    signal.alarm(120 if _LIMIT_HITS[0] < 3 else 5)
+    try:
+        return fn(x)
+    finally:
+        signal.alarm(0)
+        signal.signal(signal.SIGALRM, old)
